@@ -516,3 +516,40 @@ def inline_new_constants(cur_trees, pkg="shexer"):
                 if not isinstance(st, (ast.Import, ast.ImportFrom)):
                     tree2.body[i] = tr.visit(st)
     return done
+
+
+def _pure_path(e):
+    while isinstance(e, (ast.Attribute, ast.Subscript)):
+        if isinstance(e, ast.Subscript) and not _pure_path(e.slice) and not isinstance(e.slice, ast.Constant):
+            return False
+        e = e.value
+    return isinstance(e, (ast.Name, ast.Constant))
+
+
+class _Lower(ast.NodeTransformer):
+    """`for k, v in X.items(): B` reads the same table as `for k in X: v = X[k]; B`: the rules that follow a value to the
+    table entry it was read from (counts, figures) see one form."""
+    def visit_For(self, n):
+        self.generic_visit(n)
+        it = n.iter
+        if isinstance(it, ast.Call) and isinstance(it.func, ast.Attribute) and it.func.attr == "items" and not it.args and not it.keywords \
+                and isinstance(n.target, ast.Tuple) and len(n.target.elts) == 2 and all(isinstance(x, ast.Name) for x in n.target.elts) \
+                and _pure_path(it.func.value) and not n.orelse:
+            k, v = n.target.elts
+            import copy
+            read = ast.Assign(targets=[ast.Name(v.id, ast.Store())],
+                              value=ast.Subscript(value=copy.deepcopy(it.func.value), slice=ast.Name(k.id, ast.Load()), ctx=ast.Load()))
+            ast.copy_location(read, n)
+            for x in ast.walk(read):
+                ast.copy_location(x, n.target)
+            n.target = ast.Name(k.id, ast.Store())
+            ast.copy_location(n.target, k)
+            n.iter = it.func.value
+            n.body = [read] + n.body
+        return n
+
+
+def lower_idioms(cur_trees):
+    for t in cur_trees.values():
+        _Lower().visit(t)
+        ast.fix_missing_locations(t)
